@@ -360,6 +360,7 @@ class Exec:
     def set_attr(self, obj, attr, value):
         if isinstance(obj, SObj):
             obj._fields[attr] = value
+            obj._written.add(attr)
             return
         raise OutOfSubset(f"attribute store on {type(obj).__name__}")
 
@@ -928,7 +929,7 @@ class Exec:
         elif isinstance(base, ADict):
             k = lift(idx)
             base.present = z3.Store(base.present, k, z3.BoolVal(True))
-            base.vals = z3.Store(base.vals, k, lift(value))
+            base.vals = z3.Store(base.vals, k, lift(self.handle(value) if isinstance(value, SObj) else value))
         elif isinstance(base, AList):
             i = lift(idx)
             if not self.branch(z3.And(i >= 0, i < base.length)):
@@ -936,6 +937,12 @@ class Exec:
             base.arr = z3.Store(base.arr, i, lift(value))
         else:
             raise OutOfSubset(f"item store on {type(base).__name__}")
+
+    def handle(self, obj):
+        """Opaque integer handle of an object (used when objects are stored in symbolic maps)."""
+        if "#handle" not in obj._fields:
+            obj._fields["#handle"] = z3.Int(f"{obj._nm}#handle")
+        return obj._fields["#handle"]
 
     # calls are in calls.py (mixin), statements in stmts.py (mixin)
 
